@@ -147,7 +147,7 @@ package h2
 //@   ensures[lock-released] !r.flowMu.held
 
 //@ func (*relay).updateWindow
-//@   serves C09
+//@   serves C09 C08
 //@   requires r != nil && f != nil && !r.flowMu.held && bufsOK(r) && within(r, 1099511627776)
 //@   modifies r.connectionWindowSize, sentConn, outputBuffer.windowSize, outputBuffer.sentS, list.List.gfront, list.List.glen, r.outputBuffers[*], r.flowMu.held
 //@   ensures[connection-grant-exact] f.StreamID == 0 ==> r.connectionWindowSize + sentConn == old(r.connectionWindowSize + sentConn) + f.Increment
@@ -290,8 +290,19 @@ package h2
 
 // processFrame: per frame type, exactly the processor call the frame stands for, with equal arguments.
 // (No frame clause: the callees' effects on flow-control state are specified on those callees.)
+// connection-level frames are written straight to the destination: a failed write is the relay's error (C10: the
+// connection pair is torn down instead of silently losing PING / GOAWAY)
+//@ ghost var lastConnWriteErr error
+//@ extern func (*http2.Framer).WritePing
+//@   modifies lastConnWriteErr
+//@   ensures lastConnWriteErr == result
+//@ extern func (*http2.Framer).WriteGoAway
+//@   modifies lastConnWriteErr
+//@   ensures lastConnWriteErr == result
 //@ func (*relay).processFrame
 //@   serves C08
+//@   modifies lastConnWriteErr
+//@   ensures[failed-write-of-a-connection-frame-is-the-relays-error; C10] typeis(f, *http2.PingFrame) || typeis(f, *http2.GoAwayFrame) ==> result == lastConnWriteErr
 //@   requires r != nil && r.peer != nil && relayReady(r) && relayReady(r.peer) && contInv(r) && ref(f) != nil
 //@   modifies relay.*, outputBuffer.*, list.List.*, list.Element.*, list.List.gfront, list.List.glen, list.Element.gnext, outputBuffer.sentS, sync.Mutex.held, bytes.Buffer.blen, bytes.Buffer.bparts, bytes.Buffer.bfirst, bytes.Buffer.bview
 //@   modifies sentConn, pcN, pcKind, pcSelf, pcEnd, pcData, pcHeaders, pcPrio, pcCode, pcPromise, lastDecoded, pendEnd, pendPrio, pendPromise, lastDecodedFrom, rlN, rlKind, rlSelf, rlID, rlEnd, rlData, rlHeaders, rlPrio, rlCode, rlPromise
@@ -613,12 +624,28 @@ package h2
 //@   modifies c.gclosed
 //@   ensures c.gclosed
 
+// hpack limits: what the relay's decoder is ALLOWED to be told by a dynamic table size update (RFC 7541 4.2) and what
+// its encoder may be raised to are lifted at construction, so that any SETTINGS_HEADER_TABLE_SIZE an endpoint announces
+// can be followed; otherwise a header block that starts with a larger size update is rejected and the direction stops.
+//@ ghost field hpack.Decoder.gAllowedMax int
+//@ ghost field hpack.Encoder.gLimit int
+//@ extern func (*hpack.Decoder).SetAllowedMaxDynamicTableSize
+//@   modifies d.gAllowedMax
+//@   ensures d.gAllowedMax == v
+//@ extern func (*hpack.Encoder).SetMaxDynamicTableSizeLimit
+//@   modifies e.gLimit
+//@   ensures e.gLimit == v
+//@ extern func hpack.NewDecoder
+//@   ensures result != nil && fresh(result) && result.gAllowedMax == maxDynamicTableSize
+//@ extern func hpack.NewEncoder
+//@   ensures result != nil && fresh(result) && result.gLimit == 4096
 //@ func newRelay
-//@   serves C09 C10
+//@   serves C08 C09 C10
 //@   requires enableDebugLogs != nil
 //@   ensures result != nil && fresh(result)
 //@   ensures[initial-windows] result.connectionWindowSize == 65535 && result.initialWindowSize == 65535 && result.maxFrameSize == 16384
 //@   ensures result.outputBuffers != nil && len(result.outputBuffers) == 0 && result.src == src && result.dest == dest && result.dir == dir
+//@   ensures[table-size-limits-lifted; C08] result.decoder != nil && result.encoder != nil && result.decoder.gAllowedMax == 4294967295 && result.encoder.gLimit == 4294967295
 
 //@ func (*Config).Proxy
 //@   serves C10
@@ -648,6 +675,7 @@ package h2
 // never block doing so, because the reader may be blocked itself (output channel full) and then nobody would ever take
 // the error: the channel needs room for the report (capacity >= 1) and the report is sent at most once.
 //@ ghost var nWErr int
+//@ ghost var wSel int
 //@ iface queuedFrame.send
 //@ func (*relay).relayFrames$2
 //@   serves C10
@@ -659,6 +687,11 @@ package h2
 //@   loop 0 invariant nWErr <= old(nWErr) + 1
 //@   loop 0 invariant err == nil ==> nWErr == old(nWErr)
 //@   at send 0 after set nWErr = nWErr + 1
+// the writer keeps taking frames off r.output (discarding them after an error) until the reader is done: if it left
+// earlier, the reader would block forever on the full output channel and never see the error
+//@   modifies wSel
+//@   at select 0 after set wSel = sel
+//@   at return all before assert[writer-drains-the-output-until-the-reader-is-done] wSel == 1
 //@   ensures[write-error-reported-at-most-once] nWErr <= old(nWErr) + 1
 //@ func (*relay).relayFrames
 //@   serves C10
